@@ -4,7 +4,7 @@
 set -e
 W=$(mktemp -d /tmp/asn1c-suite-XXXXXX)
 trap 'rm -rf "$W"' EXIT
-cp -a /repo "$W/repo"
+cp -a "${SRC:-/repo}" "$W/repo"
 cd "$W/repo"
 # The in-tree Makefiles carry absolute paths of /repo (abs_top_srcdir): point them at the copy, drop stale per-test
 # build directories (they symlink to /repo/skeletons), rebuild the copy and test the copy's own binaries and skeletons.
